@@ -7,6 +7,7 @@ import (
 	"encoding/json"
 	"errors"
 	"fmt"
+	"math"
 	"net/http"
 	"strconv"
 	"strings"
@@ -257,8 +258,11 @@ func parseNumber(s string) (any, bool) {
 	if err == nil {
 		return z, true
 	}
+	// ParseFloat also accepts spellings of infinity and NaN. Those are not
+	// numbers in the sense of the rules above, and JSON cannot represent them:
+	// leave them to be treated as literal strings.
 	v, err := strconv.ParseFloat(s, 64)
-	if err == nil {
+	if err == nil && !math.IsInf(v, 0) && !math.IsNaN(v) {
 		return v, true
 	}
 	return nil, false
